@@ -6,7 +6,7 @@ from common import Rng, F, close
 import fitcase
 
 PROP = 'C02'
-MODEL_OPS = 'Grid.ndist, Grid.gridlog_m, FitModel.fit3_pkg (interp_clamp_m, scaled_flux_m, av_at_distance, chi2_m, argmin_x)'
+MODEL_OPS = 'Grid.ndist, Grid.gridlog_m, FitModel.fit3_pkg (interp_clamp_m, scaled_flux_m, av_at_distance, chi2_m, argmin_x), FitMask.fit3_pkg_masked; beyond the property: RadiusM.radius_sigma_m, RadiusM.radius_cumul_m, ResolvedM.resolved_pkg'
 RULE = ('aperture-dependent v1 packages (convolved files with 2-8 apertures) fitted through Fitter: 2-6 bands with >=1 fitted band, 1-8 models, growth curves '
         'non-decreasing or arbitrary, distance ranges incl. dmin==dmax and ranges pushing theta*d beyond the largest aperture, steps 0.01-0.5; '
         'a malformed stream with theta*dmin below the smallest aperture. non-trivial = more than one trial distance and a finite chi2; distinct = distinct inputs.')
@@ -51,10 +51,72 @@ def generate(tier, seed):
                 if all(len(a) == len(b) for a, b in zip(new, c['aps'])):
                     c['aps'], c['ap_dtype'] = new, 'float32'
         cases.append(c)
+    # beyond the property (DESIGN 0.2): ConvolvedFluxes.find_radius_sigma / find_radius_cumul called directly on random tables and
+    # compared with RadiusM; a disagreement is a NOTE in the evidence, not a verdict on C02
+    for k in range(40 if tier == 'quick' else 600):
+        nap, nm = rng.randint(1, 8), rng.randint(1, 4)
+        aps = sorted(set(rng.dyadic(1.0, 4000.0, 10) for _ in range(nap)))
+        fl = []
+        for _ in range(nm):
+            row = [rng.dyadic(0.5, 40.0, 8) for _ in aps]
+            if rng.random() < 0.6:
+                row = sorted(row)
+            fl.append(row)
+        cases.append(dict(kind='radius', aps=aps, fl=fl, fracs=[0.5, rng.choice([0.25, 0.75, 0.125]), rng.choice([0.1, 0.3, 0.9, 0.99])]))
     return cases
 
 
-impl = fitcase.impl_fit
+def impl(case):
+    if case.get('kind') == 'radius':
+        return _impl_radius(case)
+    return fitcase.impl_fit(case)
+
+
+def _impl_radius(case):
+    import numpy as np
+    from astropy import units as u
+    from sedfitter.convolved_fluxes import ConvolvedFluxes
+    fl = np.array(case['fl'], dtype=float)
+    c = ConvolvedFluxes(wavelength=1.0 * u.micron, model_names=np.array(['m%d' % i for i in range(len(fl))], dtype='S30'),
+                        apertures=np.array(case['aps'], dtype=float) * u.au, flux=fl * u.mJy, error=fl * 0.0 * u.mJy)
+    return dict(sigma=[[float(x) for x in c.find_radius_sigma(fr).to(u.au).value] for fr in case['fracs']],
+                cumul=[[float(x) for x in c.find_radius_cumul(fr).to(u.au).value] for fr in case['fracs']])
+
+
+def _judge_radius(case, im, mo):
+    tags, notes = ['kind=radius', 'nap=%d' % len(case['aps'])], []
+    if 'exc' in im:
+        return dict(disagree=[], fail=[], notes=['find_radius_* raised %s' % im.get('msg', im['exc'])], nontrivial=False, tags=tags + ['radius=raised'])
+    aps = [F(a) for a in case['aps']]
+    t = 0
+    for what in ('sigma', 'cumul'):
+        for fi, fr in enumerate(case['fracs']):
+            for mi, row in enumerate(case['fl']):
+                ans = mo[t]
+                t += 1
+                if isinstance(ans, tuple):
+                    notes.append('driver: %r' % (ans,))
+                    continue
+                fl = [F(x) for x in row]
+                if what == 'sigma':
+                    sg = [fl[0] / aps[0] ** 2] + [(fl[j] - fl[j - 1]) / (aps[j] ** 2 - aps[j - 1] ** 2) for j in range(1, len(aps))]
+                    thr, big = F(fr) * max(sg), max(abs(x) for x in sg)
+                    tie = any(abs(x - thr) < big * Fraction(1, 10 ** 6) for x in sg)
+                else:
+                    req = F(fr) * fl[-1]
+                    tie = any(x != req and abs(x - req) < fl[-1] * Fraction(1, 10 ** 9) for x in fl) or (F(fr) * F(row[-1]) != F(fr * row[-1]) and any(x == req for x in fl))
+                if tie:
+                    tags.append('radius=tie-skipped')
+                    continue
+                got = im[what][fi][mi]
+                if abs(got - float(ans)) > 1e-8 * float(aps[-1]):
+                    notes.append('find_radius_%s(%r) on apertures %r fluxes %r: implementation %r, RadiusM %r' % (what, fr, case['aps'], row, got, float(ans)))
+                    tags.append('radius=differs')
+                else:
+                    tags.append('radius=agree')
+    return dict(disagree=[], fail=[], notes=notes[:3], nontrivial=False, tags=tags, evals=t)
+
+
 shrink = fitcase.shrink
 
 
@@ -63,6 +125,9 @@ MODEL_NEEDS_IMPL = True
 
 def model_requests(case, im=None):
     import numpy as np
+    if case.get('kind') == 'radius':
+        return [(op, [F(fr), [F(a) for a in case['aps']], [F(x) for x in row]])
+                for op in ('radius_sigma', 'radius_cumul') for fr in case['fracs'] for row in case['fl']]
     d0, d1 = case['drange']
     L = float(np.log10(d1) - np.log10(d0))
     ds, logds = fitcase.grid_of(case)
@@ -73,6 +138,7 @@ def model_requests(case, im=None):
     if isinstance(im, dict) and im.get('rr_ext') and isinstance(im.get('rr'), dict) and im['rr'].get('n_distances') == len(ds):
         op, args = reqs[0]
         reqs.append(('fit3_pkg_masked', args + [im['rr_ext']]))
+        reqs.append(('resolved_pkg', [args[6], args[7], args[9]]))       # the mask itself, as ResolvedM computes it (beyond the property: NOTE only)
     return reqs
 
 
@@ -87,6 +153,8 @@ def _interp_clamp(aps, fl, r):
 
 
 def judge(case, im, mo):
+    if case.get('kind') == 'radius':
+        return _judge_radius(case, im, mo)
     tol8 = 1e-4 if case.get('ap_dtype') == 'float32' else 1e-8      # a single-precision aperture table is interpolated with single-precision abscissae (1e-7 in the log fluxes, amplified in A_V by the conditioning of the one-parameter regression); these cases are there for the refusal on the table edge
     import numpy as np
     tags = ['nb=%d' % len(case['wav']), 'nm=%d' % len(case['names']), 'kind=' + case.get('kind', 'ok'),
@@ -94,7 +162,7 @@ def judge(case, im, mo):
     if any(isinstance(m, tuple) for m in mo):
         return dict(disagree=['driver %r' % ([m for m in mo if isinstance(m, tuple)][:1],)], fail=[], nontrivial=False)
     (m11, alaw, opt), nmodel, glog = mo[:3]
-    disagree, fail = [], []
+    disagree, fail, notes = [], [], []
     too_small_model = (opt == [])
     # the documented refusal, evaluated directly
     d0 = case['drange'][0]
@@ -188,6 +256,29 @@ def judge(case, im, mo):
                     disagree.append('remove_resolved=True, %s: %s' % (rr['model_name'][i], x))
                 if d3:
                     break
+        # beyond the property: the `extended` array itself against ResolvedM.resolved_pkg (entries near a tie are not compared)
+        if len(mo) > 4 and not isinstance(mo[4], tuple) and mo[4] and im.get('rr_ext'):
+            ncmp = nbad = 0
+            for mid, one in enumerate(mo[4]):
+                if not one:          # a surface brightness was +inf or nan: outside the model
+                    tags.append('mask=unmodelled')
+                    continue
+                bands, ext = one[0]
+                for j, (radius, thr, sg) in enumerate(bands):
+                    big = max(abs(x) for x in sg)
+                    if any(abs(x - thr) < big * Fraction(1, 10 ** 6) for x in sg):
+                        continue
+                    for k in range(len(ds)):
+                        a = F(case['theta'][j]) * F(ds[k]) * 1000
+                        if abs(a - radius) <= Fraction(1, 10 ** 6) * max(a, radius):
+                            continue
+                        ncmp += 1
+                        if bool(ext[k][j]) != bool(im['rr_ext'][mid][k][j]):
+                            nbad += 1
+                            if len(notes) < 2:
+                                notes.append('extended[%s, distance %d, band %d]: implementation %r, ResolvedM %r (radius %r AU, aperture %r AU)'
+                                             % (case['names'][mid], k, j, bool(im['rr_ext'][mid][k][j]), bool(ext[k][j]), float(radius), float(a)))
+            tags.append('mask=differs' if nbad else 'mask=agree' if ncmp else 'mask=ties-only')
         if sorted(rr['model_id']) != list(range(len(case['names']))):
             fail.append('row: remove_resolved=True: model_id %r is not a permutation' % (rr['model_id'],))
         else:
@@ -243,4 +334,4 @@ def judge(case, im, mo):
                             % (mm['model_name'][i], ds[k], hit[0]))
                 break
     tags.append('fmt=' + str(case.get('fmt')))
-    return dict(disagree=disagree[:5], fail=fail[:5], nontrivial=nontrivial, tags=tags)
+    return dict(disagree=disagree[:5], fail=fail[:5], notes=notes, nontrivial=nontrivial, tags=tags)
